@@ -81,6 +81,8 @@ def check_translation(case, r: R):
         pos = 'first' if i == 0 else ('last' if i == len(kinds) - 1 else 'middle')
         r.cls(f'{k}@{pos}')
     r.cls('w=0' if w == 0 else 'w>0', 'implicit-ground' if 'ground' not in kinds else 'ground-component')
+    if any(c['kind'] != 'ground' and c['nodes'][0] == c['nodes'][1] for c in spec['components']):
+        r.cls('component-bridged-by-its-own-node')
     try:
         exp = cc.network_of(spec, w, w_res)
     except cc.Boundary:
@@ -167,6 +169,15 @@ def translation_case(draw):
     spec = draw(cc.circuit(2, 5, 8, source_kinds_v=cc.SOURCE_KINDS_V, source_kinds_i=cc.SOURCE_KINDS_I, w_pool=w_pool,
                            passive=cc.PASSIVE + ['short_circuit'], min_sources=0))
     spec = draw(special_values(spec))
+    # occasionally a component bridged by its own node (both terminals on one node): still exactly one branch
+    if draw(st.sampled_from([False, False, False, True])):
+        two = [c for c in spec['components'] if c['kind'] != 'ground']
+        c = two[draw(st.integers(0, len(two) - 1))]
+        keep_first = draw(st.booleans())
+        dropped = c['nodes'][1] if keep_first else c['nodes'][0]
+        # the abandoned node must stay in the circuit (otherwise a ground placed on it would rightly be rejected)
+        if any(dropped in o['nodes'] for o in two if o is not c):
+            c['nodes'] = [c['nodes'][0], c['nodes'][0]] if keep_first else [c['nodes'][1], c['nodes'][1]]
     w_res = draw(st.sampled_from([1e-3, 1e-3, 1e-2, 1.0, 1e-5]))
     mode = draw(st.integers(0, 6))
     ws = draw(st.sampled_from(w_pool))
